@@ -436,7 +436,23 @@ var checkBW = ev.Register("bandwidth", func(c *BWCase) ev.Outcome {
 	if got := stats.BandwidthSilverman(s); !(math.Abs(got-wantSil) <= tol(wantSil)) {
 		return ev.Fail("BandwidthSilverman = %.15g, want 1.06*s*n^(-1/5) = %.15g", got, wantSil)
 	}
-	if got := stats.BandwidthScott(s); !(math.Abs(got-wantScott) <= tol(wantScott)) {
+	// The IQR is a difference of two interpolated order statistics: each carries the rounding
+	// of its value (eps*|x|) and of the interpolation position h (eps*h times the local gap
+	// between order statistics), however h is evaluated; with an IQR far smaller than the
+	// data these absolute errors are what limits it, not a relative one.
+	gapAt := func(p float64) float64 {
+		h := (float64(n)+1.0/3)*p + 1.0/3
+		k := int(math.Floor(h))
+		g := 0.0
+		for j := k - 2; j <= k+1; j++ {
+			if j >= 0 && j+1 < n {
+				g = math.Max(g, asc[j+1]-asc[j])
+			}
+		}
+		return g
+	}
+	iqrTol := 16 * ref.Eps * (float64(n)*(gapAt(0.25)+gapAt(0.75)) + absMaxOf(c.Xs))
+	if got := stats.BandwidthScott(s); !(math.Abs(got-wantScott) <= tol(wantScott)+scale*iqrTol/1.349) {
 		return ev.Fail("BandwidthScott = %.15g, want 1.06*min(s,IQR/1.349)*n^(-1/5) = %.15g (s=%v IQR=%v)", got, wantScott, sd, iqr)
 	}
 	// a zero Bandwidth selects Scott's rule
